@@ -284,3 +284,241 @@ Example C03_ex_checker :
   store_spec_b (fun v => v * 5) ex_data 2 ex_spikes [1; 0] [1; -1; 0]
     [[[60; 0; 55]; [110; 0; 105]]; [[0; 0; 0]; [10; 0; 0]]] = true.
 Proof. vm_compute. repeat split; reflexivity. Qed.
+
+(* ---------------------------------------------------------------------------------------------------
+   Stage 3: NpyWriter / np.load at the byte level, unsorted spike vectors, checker completeness,
+   error exits of the look-up
+   --------------------------------------------------------------------------------------------------- *)
+From PV Require Import C03.ModelNpy C03.Proofs4 C03.Proofs5.
+From Coq Require Import Permutation.
+
+(* NpyWriter + np.load, bytes.  Trusted (premises): the header is self-delimiting ([parse_hdr (hdr shape d ++
+   rest) = (shape, d, rest)]), one element of dtype d takes [itemsize d >= 1] bytes, and decoding undoes
+   encoding.  Then for ANY sequence of appended chunks of the declared dtype whose trailing dimensions pass
+   append's assertion -- no chunk at all, empty chunks, any row counts -- the file is  header ++ the chunks'
+   bytes in order,  and np.load of those bytes succeeds iff at least prod(shape) elements were appended, giving
+   the FIRST prod(shape) of them under the declared shape. *)
+Theorem C03_npy_writer : forall (A B : Type) (itemsize : dtype -> Z) (tobytes : dtype -> A -> list B)
+    (frombytes : dtype -> list B -> option A) (hdr : list Z -> dtype -> list B)
+    (parse_hdr : list B -> option (list Z * dtype * list B)),
+  (forall shape d rest, parse_hdr (hdr shape d ++ rest) = Some (shape, d, rest)) ->
+  (forall d a, zlen (tobytes d a) = itemsize d) -> (forall d, 1 <= itemsize d) ->
+  (forall d a, frombytes d (tobytes d a) = Some a) ->
+  forall (shape : list Z) (d : dtype) (cs : list (ndarr A)),
+  Forall (fun x => 0 <= x) shape ->
+  Forall (fun c => append_ok shape c = true /\ a_dtype c = d) cs ->
+  exists file, npy_file tobytes hdr shape d cs = Some file /\
+    file = hdr shape d ++ flat_map (tobytes d) (flat_map (@a_flat A) cs) /\
+    np_load_bytes itemsize frombytes parse_hdr file =
+      if zprod shape <=? size_written cs
+      then Some (shape, d, firstn (Z.to_nat (zprod shape)) (flat_map (@a_flat A) cs)) else None.
+Proof. exact (@npy_writer_load). Qed.
+Print Assumptions C03_npy_writer.
+
+(* ... so the file parses back to EXACTLY what was appended, in order, iff the element count equals the
+   declared shape -- export_waveforms' final assertion [prod(shape) == size_written]; with fewer elements
+   np.load fails, with more it succeeds but the surplus is lost. *)
+Theorem C03_npy_writer_iff : forall (A B : Type) (itemsize : dtype -> Z) (tobytes : dtype -> A -> list B)
+    (frombytes : dtype -> list B -> option A) (hdr : list Z -> dtype -> list B)
+    (parse_hdr : list B -> option (list Z * dtype * list B)),
+  (forall shape d rest, parse_hdr (hdr shape d ++ rest) = Some (shape, d, rest)) ->
+  (forall d a, zlen (tobytes d a) = itemsize d) -> (forall d, 1 <= itemsize d) ->
+  (forall d a, frombytes d (tobytes d a) = Some a) ->
+  forall (shape : list Z) (d : dtype) (cs : list (ndarr A)),
+  Forall (fun x => 0 <= x) shape ->
+  Forall (fun c => append_ok shape c = true /\ a_dtype c = d) cs ->
+  exists file, npy_file tobytes hdr shape d cs = Some file /\
+    (size_written cs < zprod shape -> np_load_bytes itemsize frombytes parse_hdr file = None) /\
+    (zprod shape < size_written cs ->
+       exists els, np_load_bytes itemsize frombytes parse_hdr file = Some (shape, d, els) /\
+                   zlen els = zprod shape /\ els <> flat_map (@a_flat A) cs) /\
+    (export_assert shape cs = true <->
+       np_load_bytes itemsize frombytes parse_hdr file = Some (shape, d, flat_map (@a_flat A) cs)).
+Proof. exact (@npy_writer_iff). Qed.
+Print Assumptions C03_npy_writer_iff.
+
+(* the repaired defect 7bdfb3a, at the byte level: chunks written in a NARROWER dtype than the declared one
+   (int16 / float32 payload under the float64 header) with the right element count: np.load fails *)
+Theorem C03_npy_dtype_mismatch : forall (A B : Type) (itemsize : dtype -> Z) (tobytes : dtype -> A -> list B)
+    (frombytes : dtype -> list B -> option A) (hdr : list Z -> dtype -> list B)
+    (parse_hdr : list B -> option (list Z * dtype * list B)),
+  (forall shape d rest, parse_hdr (hdr shape d ++ rest) = Some (shape, d, rest)) ->
+  (forall d a, zlen (tobytes d a) = itemsize d) -> (forall d, 1 <= itemsize d) ->
+  forall (shape : list Z) (d d' : dtype) (cs : list (ndarr A)),
+  Forall (fun x => 0 <= x) shape ->
+  Forall (fun c => append_ok shape c = true /\ a_dtype c = d') cs ->
+  itemsize d' < itemsize d -> export_assert shape cs = true -> 0 < zprod shape ->
+  exists file, npy_file tobytes hdr shape d cs = Some file /\
+    np_load_bytes itemsize frombytes parse_hdr file = None.
+Proof. exact (@npy_dtype_mismatch). Qed.
+Print Assumptions C03_npy_dtype_mismatch.
+
+(* with [tobytes] injective and length-preserving per dtype (no decoder): the bytes determine the elements --
+   two runs of the writer leaving the same file appended the same elements *)
+Theorem C03_npy_file_unique : forall (A B : Type) (itemsize : dtype -> Z) (tobytes : dtype -> A -> list B)
+    (hdr : list Z -> dtype -> list B),
+  (forall d a, zlen (tobytes d a) = itemsize d) -> (forall d, 1 <= itemsize d) ->
+  (forall d a b, tobytes d a = tobytes d b -> a = b) ->
+  forall (shape : list Z) (d : dtype) (cs1 cs2 : list (ndarr A)) (file : list B),
+  Forall (fun c => append_ok shape c = true /\ a_dtype c = d) cs1 ->
+  Forall (fun c => append_ok shape c = true /\ a_dtype c = d) cs2 ->
+  npy_file tobytes hdr shape d cs1 = Some file -> npy_file tobytes hdr shape d cs2 = Some file ->
+  flat_map (@a_flat A) cs1 = flat_map (@a_flat A) cs2.
+Proof. exact (@npy_file_unique). Qed.
+Print Assumptions C03_npy_file_unique.
+
+(* C03_export down to the bytes: the file is written, the final assertion holds, np.load of the BYTES gives
+   (n_spikes, n, nc), float64 and -- regrouped in C order -- window x factor per spike in spike order; the
+   abstract file of [export] has the same shape and the same elements. *)
+Theorem C03_export_bytes : forall (A B : Type) (zero : A) (scale : A -> A) (itemsize : dtype -> Z)
+    (tobytes : dtype -> A -> list B) (frombytes : dtype -> list B -> option A)
+    (hdr : list Z -> dtype -> list B) (parse_hdr : list B -> option (list Z * dtype * list B)),
+  (forall shape d rest, parse_hdr (hdr shape d ++ rest) = Some (shape, d, rest)) ->
+  (forall d a, zlen (tobytes d a) = itemsize d) -> (forall d, 1 <= itemsize d) ->
+  (forall d a, frombytes d (tobytes d a) = Some a) ->
+  forall (c : Z) (data : list (list A)) (n nc : Z) (chunks : list iv) (spikes : list spike) (k : fkind),
+  rect c data -> 1 <= c -> 1 <= n -> 0 <= nc -> spikes_ok (zlen data) c nc spikes ->
+  Tiles (zlen data) chunks ->
+  exists file els f,
+    export_bytes zero scale tobytes hdr data n chunks spikes nc k = Some (file, true) /\
+    np_load_bytes itemsize frombytes parse_hdr file = Some ([zlen spikes; n; nc], F64, els) /\
+    reshape3 (zlen spikes) n nc els = scaled_windows zero scale data n spikes /\
+    export zero scale data n chunks spikes nc k = Some f /\ npy_payload f = els /\
+    npy_shape f = [zlen spikes; n; nc].
+Proof. exact (@export_bytes_load). Qed.
+Print Assumptions C03_export_bytes.
+
+(* iter_waveforms on ANY spike vector inside the recording (sorted or not) over ANY list of chunks: each chunk
+   yields the windows of the spikes it holds, in the vector's order ([by_chunk]); over a tiling chunking this
+   is a permutation of the spikes: every spike exactly once -- but in CHUNK order, which is spike order only
+   for a sorted vector (C03_iter).  The statement's "sorted" is needed for "in spike order": C03_ex_unsorted. *)
+Theorem C03_iter_any_order : forall (A : Type) (zero : A) (c : Z) (data : list (list A)) (n nc : Z)
+    (chunks : list iv) (spikes : list spike),
+  rect c data -> 1 <= c -> 1 <= n -> spikes_in (zlen data) c nc spikes -> Tiles (zlen data) chunks ->
+  exists batches, iter_wave zero data n chunks spikes = Some batches /\
+    concat batches = map (spike_window zero data n) (by_chunk chunks spikes) /\
+    Permutation (by_chunk chunks spikes) spikes /\
+    Permutation (concat batches) (map (spike_window zero data n) spikes).
+Proof. exact (@iter_wave_any_order). Qed.
+Print Assumptions C03_iter_any_order.
+
+(* Window_Spec has one solution (at least one channel), namely [window] *)
+Theorem C03_window_unique : forall (A : Type) (zero : A) (c : Z) (data : list (list A)) (s n : Z)
+    (chans : list Z) (w : list (list A)),
+  rect c data -> chans_ok c chans -> 0 <= n -> chans <> [] ->
+  Window_Spec zero data s n chans w -> w = window zero data s n chans.
+Proof. exact (@window_spec_is_window). Qed.
+Print Assumptions C03_window_unique.
+
+(* completeness of the comparator's clauses (converse of C03_checker_sound): an observed array that satisfies
+   the declarative clause makes the boolean clause true -- no correct output is ever flagged *)
+Theorem C03_checker_complete : forall (scale : Z -> Z) (c : Z) (data : list (list Z)) (samples : list Z) (n : Z)
+    (chans : list Z) (spikes : list spike) (q_pos q_ch : list Z) (nc : Z) (shape : list Z)
+    (obs : list (list (list Z))),
+  rect c data -> 0 <= n ->
+  (Extract_Spec 0 data samples n chans obs -> chans_ok c chans -> chans <> [] ->
+     extract_spec_b data samples n chans obs = true) /\
+  (shape = [zlen spikes; n; nc] -> export_shape_b spikes n nc shape = true) /\
+  (Export_Spec 0 scale data n spikes obs -> Forall (fun sp => chans_ok c (sp_ch sp) /\ sp_ch sp <> []) spikes ->
+     export_spec_b scale data n spikes obs = true) /\
+  (Store_Spec 0 scale data n spikes q_pos q_ch obs -> chans_ok c q_ch -> q_ch <> [] ->
+     store_spec_b scale data n spikes q_pos q_ch obs = true).
+Proof. exact checker_complete. Qed.
+Print Assumptions C03_checker_complete.
+
+(* error exits of the look-up: on a store built from an export, get_spike_waveforms fails EXACTLY when one of its
+   three assertions fails (a queried id the store does not hold, n <= 0, no channel) -- the AssertionError that
+   TemplateModel.get_waveforms catches to fall back to the raw data -- and otherwise returns one entry per
+   queried id.  No other failure (IndexError, shape mismatch) exists on such a store. *)
+Theorem C03_store_total : forall (A : Type) (zero : A) (scale : A -> A) (c : Z) (data : list (list A)) (n : Z)
+    (spikes : list spike) (ids q_ids q_ch : list Z),
+  Forall (fun sp => chans_ok c (sp_ch sp)) spikes ->
+  Forall (fun x => 0 <= x) ids -> zlen ids = zlen spikes -> Forall (fun ch => -1 <= ch) q_ch ->
+  let st := mkstore ids (map sp_ch spikes) (scaled_windows zero scale data n spikes) in
+  (gsw_asserts q_ids q_ch st n = false -> get_spike_waveforms zero q_ids q_ch st n = None) /\
+  (gsw_asserts q_ids q_ch st n = true ->
+     exists out, get_spike_waveforms zero q_ids q_ch st n = Some out /\ zlen out = zlen q_ids) /\
+  (gsw_asserts q_ids q_ch st n = true <->
+     Forall (fun x => In x ids) q_ids /\ 1 <= n /\ q_ch <> []).
+Proof. exact (@store_total). Qed.
+Print Assumptions C03_store_total.
+
+(* ---- stage 3: non-vacuity ---- *)
+(* a concrete byte layout meeting the four premises: itemsize 2/4/8; an element = its value followed by zero
+   bytes; the header = number of dimensions, the dimensions, a dtype code *)
+Definition ex_isz (d : dtype) : Z := match d with I16 => 2 | F32 => 4 | F64 => 8 end.
+Definition ex_tob (d : dtype) (a : Z) : list Z := a :: repeat 0 (Z.to_nat (ex_isz d - 1)).
+Definition ex_fromb (d : dtype) (b : list Z) : option Z := hd_error b.
+Definition ex_code (d : dtype) : Z := match d with I16 => 2 | F32 => 4 | F64 => 8 end.
+Definition ex_hdr (shape : list Z) (d : dtype) : list Z := zlen shape :: shape ++ [ex_code d].
+Definition ex_parse (f : list Z) : option (list Z * dtype * list Z) :=
+  match f with
+  | [] => None
+  | k :: r => match skipn (Z.to_nat k) r with
+              | code :: rest =>
+                  match (if code =? 2 then Some I16 else if code =? 4 then Some F32 else if code =? 8 then Some F64 else None) with
+                  | Some d => Some (firstn (Z.to_nat k) r, d, rest)
+                  | None => None
+                  end
+              | [] => None
+              end
+  end.
+Example C03_ex_bytes_premises :
+  (forall shape d rest, ex_parse (ex_hdr shape d ++ rest) = Some (shape, d, rest)) /\
+  (forall d a, zlen (ex_tob d a) = ex_isz d) /\ (forall d, 1 <= ex_isz d) /\
+  (forall d a, ex_fromb d (ex_tob d a) = Some a) /\ (forall d a b, ex_tob d a = ex_tob d b -> a = b).
+Proof.
+  repeat split.
+  - intros shape d rest. unfold ex_parse, ex_hdr. cbn [app]. unfold zlen. rewrite Nat2Z.id, <- app_assoc.
+    rewrite skipn_app, Nat.sub_diag, skipn_all, firstn_app, Nat.sub_diag, firstn_all. cbn [app skipn firstn].
+    rewrite app_nil_r. destruct d; reflexivity.
+  - intros d a. destruct d; reflexivity.
+  - intros d. destruct d; cbn; lia.
+  - intros d a b H. injection H. auto.
+Qed.
+(* declared (2, 1, 2); appended: an empty chunk, one row, an empty chunk, one row -> loads, in order *)
+Definition ex_row (v : Z) : ndarr Z := mkarr [1; 1; 2] F64 [v; v + 1].
+Definition ex_empty : ndarr Z := mkarr [0; 1; 2] F64 [].
+Example C03_ex_npy_exact :
+  option_map (np_load_bytes ex_isz ex_fromb ex_parse) (npy_file ex_tob ex_hdr [2; 1; 2] F64 [ex_empty; ex_row 5; ex_empty; ex_row 7]) =
+    Some (Some ([2; 1; 2], F64, [5; 6; 7; 8])) /\
+  export_assert [2; 1; 2] [ex_empty; ex_row 5; ex_empty; ex_row 7] = true /\
+  (* no chunk at all under a declared (0, 1, 2): loads as the empty array *)
+  option_map (np_load_bytes ex_isz ex_fromb ex_parse) (npy_file ex_tob ex_hdr [0; 1; 2] F64 []) = Some (Some ([0; 1; 2], F64, [])).
+Proof. vm_compute. repeat split; reflexivity. Qed.
+(* one row short: np.load fails; one row too many: loads, the last row is lost, and the assertion is false;
+   an int16 payload of the right element count under the float64 header: fails; a chunk with other trailing
+   dimensions: append asserts *)
+Example C03_ex_npy_otherwise :
+  option_map (np_load_bytes ex_isz ex_fromb ex_parse) (npy_file ex_tob ex_hdr [2; 1; 2] F64 [ex_row 5]) = Some None /\
+  option_map (np_load_bytes ex_isz ex_fromb ex_parse) (npy_file ex_tob ex_hdr [2; 1; 2] F64 [ex_row 5; ex_row 7; ex_row 9]) =
+    Some (Some ([2; 1; 2], F64, [5; 6; 7; 8])) /\
+  export_assert [2; 1; 2] [ex_row 5; ex_row 7; ex_row 9] = false /\
+  option_map (np_load_bytes ex_isz ex_fromb ex_parse)
+    (npy_file ex_tob ex_hdr [2; 1; 2] F64 [mkarr [2; 1; 2] I16 [5; 6; 7; 8]]) = Some None /\
+  npy_file ex_tob ex_hdr [2; 1; 2] F64 [mkarr [1; 2; 1] F64 [5; 6]] = None.
+Proof. vm_compute. repeat split; reflexivity. Qed.
+(* the export of C03_ex_export at the byte level *)
+Example C03_ex_export_bytes :
+  option_map (fun p => (np_load_bytes ex_isz ex_fromb ex_parse (fst p), snd p))
+    (export_bytes 0 (fun v => v * 5) ex_tob ex_hdr ex_data 2 [mkiv 0 2; mkiv 2 3] [mkspike 0 [0; 1]; mkspike 2 [1; -1]] 2 PyFloat) =
+  Some (Some ([2; 2; 2], F64, [0; 0; 5; 10; 60; 0; 110; 0]), true).
+Proof. vm_compute. reflexivity. Qed.
+(* the boundary "sorted": the vector [2; 0] over the chunks [0,2) [2,3) comes out in CHUNK order (spike 0
+   first), so the exported file is NOT in spike order -- with one chunk the vector's order is kept *)
+Definition ex_unsorted := [mkspike 2 [1; -1]; mkspike 0 [0; 1]].
+Example C03_ex_unsorted :
+  iter_wave 0 ex_data 2 ex_chunks ex_unsorted = Some [[[[0; 0]; [1; 2]]]; [[[12; 0]; [22; 0]]]] /\
+  by_chunk ex_chunks ex_unsorted = [mkspike 0 [0; 1]; mkspike 2 [1; -1]] /\
+  map (spike_window 0 ex_data 2) ex_unsorted = [[[12; 0]; [22; 0]]; [[0; 0]; [1; 2]]] /\
+  option_map (fun f => np_load f) (export 0 (fun v => v) ex_data 2 ex_chunks ex_unsorted 2 PyFloat) =
+    Some (Some [[[0; 0]; [1; 2]]; [[12; 0]; [22; 0]]]) /\
+  iter_wave 0 ex_data 2 [mkiv 0 3] ex_unsorted = Some [[[[12; 0]; [22; 0]]; [[0; 0]; [1; 2]]]].
+Proof. vm_compute. repeat split; reflexivity. Qed.
+(* completeness is live: the window meets Window_Spec's checker, and the error exits are as stated *)
+Example C03_ex_total :
+  option_map (fun st => (gsw_asserts [3; 9] [0] st 2, get_spike_waveforms 0 [3; 9] [0] st 2)) ex_store = Some (false, None) /\
+  option_map (fun st => (gsw_asserts [3] [] st 2, get_spike_waveforms 0 [3] [] st 2)) ex_store = Some (false, None) /\
+  option_map (fun st => (gsw_asserts [3] [0] st 0, get_spike_waveforms 0 [3] [0] st 0)) ex_store = Some (false, None) /\
+  option_map (fun st => gsw_asserts [3; 7] [0] st 2) ex_store = Some true.
+Proof. vm_compute. repeat split; reflexivity. Qed.
